@@ -343,7 +343,8 @@ class IncrementalInterpreter(Pytree):
                 outduals = [outduals]
             jax_util.safe_map(dual_env.write, _eqn.outvars, outduals)
 
-        return jax_util.safe_map(dual_env.read, jaxpr.outvars)
+        outduals = jax_util.safe_map(dual_env.read, jaxpr.outvars)
+        return [v if isinstance(v, Diff) else Diff(v, NoChange) for v in outduals]
 
     def run_interpreter(self, _stateful_handler, fn, primals, tangents, **kwargs):
         def _inner(*args):
